@@ -219,11 +219,13 @@ class C08(Check):
     level = "exploration"
     title = "Resource limits only abort a render, never alter its output"
     rule = (
-        "Every case of five families (nest: every nest of depth <= 3 of for / tablerow / include-for / render-for / "
+        "Every case of six families (nest: every nest of depth <= 3 of for / tablerow / include-for / render-for / "
         "include, render or macro call inside a for, each level over a list of length 0..3; c07: the C07 corpus; rec: "
         "self-include, self-render, mutual render and render-through-a-loop recursion of data-bounded depth k; blocks: "
         "every chain of <= 3 block kinds, homogeneous chains up to depth Dmax, else/elsif/when branches, sibling "
-        "chains, chains inside partials; vars: every sequence of <= 4 assign/capture/output steps over two variables) "
+        "chains, chains inside partials; vars: every sequence of <= 4 assign/capture/output steps over two variables; "
+        "values: 18 typed value expressions x 8 uses (output, compare, iterate, filters, render argument, include, "
+        "rebind, capture) x 4 binding sites) "
         "is rendered unlimited, then once per value of a sweep of each of the five "
         "limits (0 .. beyond the use of the case, plus a far value; other limits unlimited). One evaluation = one "
         "limited parse+render. A (case, limit) sweep is non-trivial iff the limit binds in it: at least one value "
